@@ -1351,7 +1351,8 @@ impl<'p, 'a> Evaluator<'a, 'p> {
                     part_i,
                     array_i,
                     fw,
-                } => self.do_std_format_codes_array_3(parts, array, part_i, array_i, fw)?,
+                    left,
+                } => self.do_std_format_codes_array_3(parts, array, part_i, array_i, fw, left)?,
                 State::StdFormatCodesObject1 {
                     parts,
                     object,
@@ -1367,8 +1368,9 @@ impl<'p, 'a> Evaluator<'a, 'p> {
                     parts,
                     part_i,
                     fw,
+                    left,
                     prec,
-                } => self.do_std_format_code(&parts, part_i, fw, prec)?,
+                } => self.do_std_format_code(&parts, part_i, fw, left, prec)?,
                 State::StdManifestIni => self.do_std_manifest_ini()?,
                 State::StdManifestIniSections => self.do_std_manifest_ini_sections()?,
                 State::StdManifestPython => self.do_std_manifest_python(),
